@@ -27,7 +27,7 @@
 (* TrackFed = FALSE and drop fed / hins once an HLL-mode input arrived.    *)
 (***************************************************************************)
 EXTENDS Naturals, FiniteSets, Sequences, TLC
-CONSTANTS UIds, LgMaxKs, UCoupons, Inputs,    \* bounds used only by UNext (model checking); Inputs = catalogue of sketch values
+CONSTANTS UIds, LgMaxKs, UCoupons, Inputs, UBigs,    \* bounds used only by UNext (model checking); Inputs = catalogue of sketch values
           TrackFed
 VARIABLE un
 uvars == <<un>>
@@ -45,29 +45,45 @@ Fold(f, from, to) == IF from = to THEN f
 CouponTop(S, lgK) == [s \in Slots(lgK) |-> MaxOf({c[2] : c \in {d \in S : d[1] % (2^lgK) = s}})]
 Merge(f, g) == [s \in DOMAIN f |-> Max2(f[s], g[s])]
 
+(* Sparse ghost (big = TRUE; trace specifications use it for lg_max_k > 16): no dense register function; fed is kept for *)
+(* good and sp collects <<address-or-slot, value>> pairs standing for the HLL-mode inputs (their coupons when the input    *)
+(* itself has a sparse ghost, else their non-zero registers).  Every such pair folds correctly by mod 2^LgStar because      *)
+(* LgStar never exceeds the lg_k of an HLL-mode input.  The result registers are PairsOf(fed \cup sp, LgStar).             *)
+PairsOf(S, lgK) == {<<s, MaxOf({c[2] : c \in {d \in S : d[1] % (2^lgK) = s}})>> : s \in {c[1] % (2^lgK) : c \in S}}
+\* near-linear test that L is PairsOf(S, lgK) (same operator as in Hll.tla, model-checked there and in MC_HllUnion)
+PairsMatch(L, S, lgK) ==
+  LET W == {<<c[1] % (2^lgK), c[2]>> : c \in S} IN
+  /\ Cardinality({p[1] : p \in L}) = Cardinality(L)
+  /\ \A p \in L : p \in W
+  /\ \A c \in S : \E v \in c[2]..63 : <<c[1] % (2^lgK), v>> \in L
+NzOf(f) == {<<s, f[s]>> : s \in {x \in DOMAIN f : f[x] > 0}}
+
 ULive == DOMAIN un
 LgStar(o) == MinOf({o.lgMaxK} \cup o.hllLg)
-UFresh(lgMaxK) == [lgMaxK |-> lgMaxK, hllLg |-> {}, fed |-> {}, hins |-> {}, top |-> Zero(lgMaxK), empty |-> TRUE]
+UFresh(lgMaxK, big) == [lgMaxK |-> lgMaxK, hllLg |-> {}, fed |-> {}, hins |-> {}, top |-> IF big THEN <<>> ELSE Zero(lgMaxK),
+                        empty |-> TRUE, big |-> big, sp |-> {}]
 \* the declarative definition of the result registers
 ResultTop(o) == LET lg == LgStar(o) IN
   [s \in Slots(lg) |-> MaxOf({c[2] : c \in {d \in o.fed : d[1] % (2^lg) = s}}
                              \cup UNION {{hh.top[s + j * 2^lg] : j \in 0..(2^(hh.lgK - lg) - 1)} : hh \in o.hins})]
-KeepU(hl) == TrackFed \/ hl = {}
+KeepU(o, hl) == TrackFed \/ o.big \/ hl = {}
 
 AddCoupons(o, S) ==
-  [o EXCEPT !.fed = IF KeepU(o.hllLg) THEN @ \cup S ELSE {},
-            !.top = Merge(@, CouponTop(S, LgStar(o))),
+  [o EXCEPT !.fed = IF KeepU(o, o.hllLg) THEN @ \cup S ELSE {},
+            !.top = IF o.big THEN @ ELSE Merge(@, CouponTop(S, LgStar(o))),
             !.empty = @ /\ S = {}]
 AddHll(o, sv) ==
   LET lg == LgStar(o)  ng == IF sv.lgK < lg THEN sv.lgK ELSE lg  hl == o.hllLg \cup {sv.lgK} IN
   [o EXCEPT !.hllLg = hl,
-            !.fed = IF KeepU(hl) THEN @ ELSE {},
+            !.fed = IF KeepU(o, hl) THEN @ ELSE {},
             !.hins = IF TrackFed THEN @ \cup {[lgK |-> sv.lgK, top |-> sv.top]} ELSE {},
-            !.top = Merge(Fold(@, lg, ng), Fold(sv.top, sv.lgK, ng)),
+            !.top = IF o.big THEN @
+                    ELSE Merge(Fold(@, lg, ng), IF sv.big THEN CouponTop(sv.fed, ng) ELSE Fold(sv.top, sv.lgK, ng)),
+            !.sp = IF o.big THEN @ \cup (IF sv.big THEN sv.fed ELSE NzOf(sv.top)) ELSE @,
             !.empty = @ /\ sv.empty]
 
 UInit == un = <<>>
-UNew(u, lgMaxK) == un' = (u :> UFresh(lgMaxK)) @@ un
+UNew(u, lgMaxK, big) == un' = (u :> UFresh(lgMaxK, big)) @@ un
 \* update(const hll_sketch&) and update(hll_sketch&&): identical in the contract.  An EMPTY input contributes no item;
 \* whether an empty HLL-mode input still lowers the precision is not fixed by the statement: parameter counted.
 UpdateSketch(u, sv, counted) ==
@@ -79,7 +95,7 @@ UpdateSketch(u, sv, counted) ==
 \* update(item): the item's coupon
 UpdateItem(u, c) == u \in ULive /\ un' = [un EXCEPT ![u] = AddCoupons(@, {c})]
 UpdateIgnoredItem(u) == u \in ULive /\ UNCHANGED un
-UReset(u) == u \in ULive /\ un' = [un EXCEPT ![u] = UFresh(@.lgMaxK)]
+UReset(u) == u \in ULive /\ un' = [un EXCEPT ![u] = UFresh(@.lgMaxK, @.big)]
 \* observers (get_result, get_estimate, bounds, is_empty, get_lg_config_k) do not change the contract state
 Observe(u) == u \in ULive /\ UNCHANGED un
 
@@ -87,19 +103,23 @@ Observe(u) == u \in ULive /\ UNCHANGED un
 ResultOK(o, r) ==
   /\ r.lgK = LgStar(o)
   /\ r.empty = o.empty
-  /\ IF r.mode = HLL THEN r.regs = o.top
+  /\ IF r.mode = HLL THEN (IF o.big THEN PairsMatch(r.nz, o.fed \cup o.sp, LgStar(o)) ELSE r.regs = o.top)
      ELSE o.hllLg = {} /\ r.coup = o.fed
 
 UNext == \E u \in UIds :
-          \/ \E k \in LgMaxKs : UNew(u, k)
+          \/ \E k \in LgMaxKs, big \in UBigs : UNew(u, k, big)
           \/ \E sv \in Inputs, cnt \in BOOLEAN : UpdateSketch(u, sv, cnt)
           \/ \E c \in UCoupons : UpdateItem(u, c)
           \/ UReset(u)
 USpec == UInit /\ [][UNext]_uvars
 
 UInv == \A u \in ULive : LET o == un[u] IN
-         /\ DOMAIN o.top = Slots(LgStar(o))
-         /\ TrackFed => o.top = ResultTop(o)
+         /\ ~o.big => /\ DOMAIN o.top = Slots(LgStar(o))
+                      /\ TrackFed => o.top = ResultTop(o)
+                      /\ (~TrackFed /\ o.hllLg # {}) => (o.fed = {} /\ o.hins = {})
+         \* the sparse ghost describes the same registers as the declarative definition, and the near-linear test accepts exactly them
+         /\ o.big => /\ o.top = <<>>
+                     /\ TrackFed => /\ PairsOf(o.fed \cup o.sp, LgStar(o)) = NzOf(ResultTop(o))
+                                     /\ PairsMatch(NzOf(ResultTop(o)), o.fed \cup o.sp, LgStar(o))
          /\ TrackFed => (o.empty = (o.fed = {} /\ \A hh \in o.hins : hh.top = Zero(hh.lgK)))
-         /\ (~TrackFed /\ o.hllLg # {}) => (o.fed = {} /\ o.hins = {})
 ====
